@@ -175,3 +175,15 @@ PROPS["C16"] = {
         {"name": "C16.blacklist", "test": "TestVerifC16Blacklist", "shards": 16},
     ],
 }
+
+PROPS["C03"] = {
+    "claimed": False,
+    "level": "exploration",
+    "level_text": "TODO",
+    "level_note": "TODO",
+    "technique": "TODO",
+    "rule": "TODO",
+    "monitors": [
+        {"name": "C03.sign", "test": "TestVerifC03Sign", "shards": 16},
+    ],
+}
